@@ -195,3 +195,32 @@ def dump(obj, path):
     os.makedirs(os.path.dirname(path), exist_ok=True)
     with open(path, "w") as f:
         json.dump(jsonable(obj), f, indent=1, sort_keys=True)
+
+
+class OpTimeout(Exception):
+    pass
+
+
+class time_limit:
+    """Interrupt a pure-Python operation after ``seconds`` (SIGALRM; main thread only).
+    A firing limit is *inconclusive* for the case, never a verdict."""
+
+    def __init__(self, seconds):
+        self.seconds = seconds
+
+    def _handler(self, signum, frame):
+        raise OpTimeout(f"operation exceeded {self.seconds}s")
+
+    def __enter__(self):
+        import signal
+
+        self._old = signal.signal(signal.SIGALRM, self._handler)
+        signal.setitimer(signal.ITIMER_REAL, self.seconds)
+        return self
+
+    def __exit__(self, *exc):
+        import signal
+
+        signal.setitimer(signal.ITIMER_REAL, 0)
+        signal.signal(signal.SIGALRM, self._old)
+        return False
